@@ -836,7 +836,7 @@ def distribution(cases):
 def run(ctx):
     vlib.regen(ctx, ("consts",))
     vlib.coq_hygiene(ctx)
-    vlib.coq_properties(ctx, "C13", extra_files=("Properties_C13_full.v", "Properties_C13_elim.v", "Properties_C10_unique.v"))
+    vlib.coq_properties(ctx, "C13", extra_files=("Properties_C13_full.v", "Properties_C13_elim.v", "Properties_C13_eqineq.v", "Properties_C10_unique.v"))
     # sparse KKT_FULL assembly: Gallina transcription of create_kkt_matrix / update_kkt_* / update_data vs the real code
     try:
         import kktfull_stage
@@ -851,6 +851,14 @@ def run(ctx):
     except Exception as e:
         import traceback
         ctx.ob("correspondence:kktelim-model", "correspondence", False, "stage failed: " + traceback.format_exc()[-800:])
+    # sparse KKT_EQ_ELIMINATED / KKT_INEQ_ELIMINATED assemblies (KKTSparseEq.v / KKTSparseIneq.v)
+    try:
+        import kkteqineq_stage
+        kkteqineq_stage.kkt_eqineq_model_stage(ctx)
+    except Exception as e:
+        import traceback
+        for nm in ("kkteq", "kktineq"):
+            ctx.ob("correspondence:%s-model" % nm, "correspondence", False, "stage failed: " + traceback.format_exc()[-800:])
     R = Runner(ctx); R.build()
     stats = {}
     if getattr(ctx, "replay", None):
